@@ -310,7 +310,7 @@ def job(args):
         return succ, found
 
     from . import explore
-    res = explore.replay_bfs(expand, k0)
+    res = explore.replay_bfs(expand, k0, cap=250000 if tier == 'quick' else 4000000)
     for sig, what, hist in res['violations']:
         v = viol.setdefault(sig, {'what': what, 'replay': {'history': hist,
                                                           'bounds': [max_sub, max_data, max_reset, list(eager)]}, 'count': 0})
@@ -318,7 +318,7 @@ def job(args):
         if len(hist) < len(v['replay']['history']):
             v['what'], v['replay']['history'] = what, hist
     return {'states': res['states'], 'transitions': res['transitions'], 'probes': res['states'],
-            'violations': viol, 'bounds': [max_sub, max_data, max_reset, list(eager)],
+            'violations': viol, 'bounds': [max_sub, max_data, max_reset, list(eager)], 'capped': res['capped'],
             'digest': common.digest(sorted(repr(k) for k in res['keys']))}
 
 
@@ -478,6 +478,8 @@ def run(ctx):
                 ctx.violations[sig] = v
             else:
                 mine['count'] += v['count']
+        if r.get('capped'):
+            ctx.cap(f'state cap reached for bounds {r["bounds"]}')
         per.append({k: r[k] for k in ('states', 'transitions', 'probes', 'bounds', 'digest')})
         ctx.sample({k: r[k] for k in ('states', 'transitions', 'bounds')})
     ctx.assumptions += [
